@@ -132,3 +132,70 @@ Proof.
   destruct (uri_split_pure caps false s) as [u|rc] eqn:E; [|reflexivity].
   exfalso. apply (N u). apply uri_split_pure_iff. exact E.
 Qed.
+
+(* coap_address_set_unix_domain reads only the host_len bytes of the host and decodes exactly the
+   complete "%2F" escapes *)
+Lemma uri_unix_decode_0 k h : uri_unix_decode k h 0 = UOk [].
+Proof. destruct h; reflexivity. Qed.
+
+Lemma uri_unix_decode_eq k c h1 rem :
+  uri_unix_decode k (c :: h1) rem =
+  if rem =? 0 then UOk [] else
+  ulet esc <- (if (k <=? rem) && (c =? 37) then
+                 ulet c1 <- uri_rd h1 0 ;;
+                 if c1 =? 50 then ulet c2 <- uri_rd h1 1 ;; UOk ((c2 =? 70) || (c2 =? 102))
+                 else UOk false
+               else UOk false) ;;
+  if (esc : bool) then
+    match h1 with
+    | _ :: _ :: h3 => ulet r <- uri_unix_decode k h3 (rem - 3) ;; UOk (47 :: r)
+    | _ => UOob
+    end
+  else ulet r <- uri_unix_decode k h1 (rem - 1) ;; UOk (c :: r).
+Proof. reflexivity. Qed.
+
+Lemma uri_unix_decode_ok : forall h rest,
+  uri_unix_decode 3 (h ++ rest) (len h) = UOk (uri_unix_pure h).
+Proof.
+  induction h as [h IH] using uri_len_ind. intros rest.
+  destruct h as [|c [|c1 [|c2 r2]]].
+  - apply uri_unix_decode_0.
+  - cbn [app uri_unix_decode uri_unix_pure]. rewrite len_cons, len_nil.
+    cbn [Z.add Z.eqb Z.leb Z.compare Pos.compare Pos.compare_cont andb uri_bind Z.sub Z.opp Z.pos_sub].
+    rewrite uri_unix_decode_0. reflexivity.
+  - cbn [app uri_unix_decode uri_unix_pure]. rewrite !len_cons, len_nil.
+    cbn [Z.add Pos.add Pos.succ Z.eqb Z.leb Z.compare Pos.compare Pos.compare_cont andb uri_bind
+         Z.sub Z.opp Z.pos_sub Pos.pred_double].
+    rewrite uri_unix_decode_0. reflexivity.
+  - cbn [app uri_unix_pure]. rewrite uri_unix_decode_eq. rewrite !len_cons.
+    pose proof (len_nonneg r2).
+    destruct (1 + (1 + (1 + len r2)) =? 0) eqn:E0; [lia|].
+    destruct (3 <=? 1 + (1 + (1 + len r2))) eqn:E3; [|lia].
+    cbn [andb uri_rd nth_error uri_bind].
+    destruct (c =? 37) eqn:Ec; cbn [andb uri_bind].
+    + destruct (c1 =? 50) eqn:E1; cbn [andb uri_bind].
+      * destruct ((c2 =? 70) || (c2 =? 102)) eqn:E2.
+        -- replace (1 + (1 + (1 + len r2)) - 3) with (len r2) by lia.
+           rewrite (IH r2 ltac:(cbn [length]; lia) rest). reflexivity.
+        -- replace (1 + (1 + (1 + len r2)) - 1) with (len (c1 :: c2 :: r2)) by (rewrite !len_cons; lia).
+           change (c1 :: c2 :: r2 ++ rest) with ((c1 :: c2 :: r2) ++ rest).
+           rewrite (IH (c1 :: c2 :: r2) ltac:(cbn [length]; lia) rest). reflexivity.
+      * replace (1 + (1 + (1 + len r2)) - 1) with (len (c1 :: c2 :: r2)) by (rewrite !len_cons; lia).
+        change (c1 :: c2 :: r2 ++ rest) with ((c1 :: c2 :: r2) ++ rest).
+        rewrite (IH (c1 :: c2 :: r2) ltac:(cbn [length]; lia) rest). reflexivity.
+    + replace (1 + (1 + (1 + len r2)) - 1) with (len (c1 :: c2 :: r2)) by (rewrite !len_cons; lia).
+      change (c1 :: c2 :: r2 ++ rest) with ((c1 :: c2 :: r2) ++ rest).
+      rewrite (IH (c1 :: c2 :: r2) ltac:(cbn [length]; lia) rest). reflexivity.
+Qed.
+
+Theorem uri_unix_path_ok pmax host :
+  uri_unix_path pmax host =
+  UOk (uri_upto (fun c => c =? 0) (take (pmax - 1) (uri_unix_pure host))).
+Proof.
+  unfold uri_unix_path, uri_unix_path_k.
+  rewrite <- (app_nil_r host) at 1. rewrite uri_unix_decode_ok. reflexivity.
+Qed.
+
+(* a guard that lets two remaining bytes pass reads past a host ending in "%2" *)
+Lemma uri_unix_path_k2_overreads : uri_unix_path_k 2 26 [37; 50; 70; 120; 37; 50] = UOob.
+Proof. reflexivity. Qed.
